@@ -35,17 +35,17 @@ import (
 var bg = context.Background()
 
 type config struct {
-	Kind      string   `json:"list_kind"` // Repositories | Tags | Referrers
-	Layers    []string `json:"layers"`    // bottom-up, e.g. ["unify","http","sub","http"]
-	PageSize  []int    `json:"page_size"` // per http layer
-	MaxPage   []int    `json:"server_max_page"`
-	OmitLink  []bool   `json:"omit_link"`
-	N         int      `json:"set_size"`
-	Start     string   `json:"start_after"`
-	StartCls  string   `json:"start_class"`
-	Stop      int      `json:"stop_after"`
-	Fault     string   `json:"fault"` // "", "page-request-fails", "member-iterator-fails"
-	FaultAt   int      `json:"fault_at"`
+	Kind     string   `json:"list_kind"` // Repositories | Tags | Referrers
+	Layers   []string `json:"layers"`    // bottom-up, e.g. ["unify","http","sub","http"]
+	PageSize []int    `json:"page_size"` // per http layer
+	MaxPage  []int    `json:"server_max_page"`
+	OmitLink []bool   `json:"omit_link"`
+	N        int      `json:"set_size"`
+	Start    string   `json:"start_after"`
+	StartCls string   `json:"start_class"`
+	Stop     int      `json:"stop_after"`
+	Fault    string   `json:"fault"` // "", "page-request-fails", "member-iterator-fails"
+	FaultAt  int      `json:"fault_at"`
 }
 
 func allowRepo(name string) bool {
@@ -339,7 +339,9 @@ func runCase(run *evid.Run, idx int) {
 			o := stack.HTTPOpts{PageSize: c.PageSize[hi], Loopback: idx%17 == 0,
 				Server: &ociserver.Options{MaxListPageSize: c.MaxPage[hi], OmitLinkHeaderFromResponses: c.OmitLink[hi]}}
 			if c.Fault == "page-request-fails" && firstHTTP {
-				o.Wrap = func(rt http.RoundTripper) http.RoundTripper { return &failNth{inner: rt, n: &reqCount, at: int64(c.FaultAt)} }
+				o.Wrap = func(rt http.RoundTripper) http.RoundTripper {
+					return &failNth{inner: rt, n: &reqCount, at: int64(c.FaultAt)}
+				}
 			}
 			firstHTTP = false
 			hi++
@@ -566,6 +568,46 @@ func sizeClass(n, p int) string {
 	return "other"
 }
 
+// longListing: a listing longer than any page bound an implementation might impose (above ten
+// thousand entries) listed through client and server with a page size above, at and below its length:
+// every item exactly once, in order, also on a second pass over the same sequence.
+func longListing(run *evid.Run, idx int) {
+	n := []int{10001, 10007, 12500}[idx%3]
+	page := []int{2 * n, n + 1, 1 << 30, 1000}[(idx/3)%4]
+	mem := ocimem.New()
+	data := []byte("one opaque manifest for many tags")
+	want := make([]string, 0, n)
+	for i := 0; i < n; i++ {
+		t := fmt.Sprintf("t%06d", i)
+		if _, err := mem.PushManifest(context.Background(), "many/tags", t, data, "application/x-opaque"); err != nil {
+			run.Inconclusive("long-listing setup: " + err.Error())
+			return
+		}
+		want = append(want, t)
+	}
+	omitLink := idx%2 == 1
+	top, closeAll := stack.HTTP(mem, stack.HTTPOpts{Server: &ociserver.Options{OmitLinkHeaderFromResponses: omitLink}, PageSize: page})
+	defer closeAll()
+	env := model.NewEnv(top)
+	env.Reiterate = true
+	run.Eval(1)
+	op := &model.Op{Kind: "Tags", Repo: "many/tags", MaxItems: 4 * n}
+	var out *model.Outcome
+	w := map[string]any{"entries": n, "client_page_size": page, "omit_link": omitLink}
+	if !run.Case("total/Tags", w, func() { out = env.Exec(op) }) {
+		return
+	}
+	run.Count("long_listings", 1)
+	run.Distinct(fmt.Sprintf("long-listing/page>listing=%v/omitlink=%v", page > n, omitLink))
+	if !out.OK || strings.Join(out.Items, "\x00") != strings.Join(want, "\x00") {
+		last := ""
+		if len(out.Items) > 0 {
+			last = out.Items[len(out.Items)-1]
+		}
+		run.Violation(fmt.Sprintf("long-listing/Tags/page>listing=%v", page > n), fmt.Sprintf("Tags over %d entries with client page size %d through client and server: ok=%v, %d items, last %.120q (err %q)", n, page, out.OK, len(out.Items), last, out.Err), w)
+	}
+}
+
 func main() {
 	run := evid.Start("C05", "exploration")
 	run.SetRule("a case = one listing (Repositories | Tags | Referrers) over a registry stack drawn from {mem | unify(mem,mem)} + up to 4 layers of {http(page size, server max, Link on/off), debug, select, sub}, a known item set whose size sits around multiples of the page size, a start point (absent, an element, just after/before an element, before the first, beyond the last, URL metacharacters), an optional early-stopping consumer and an optional injected fault. The expected listing is computed from the set the harness stored. " +
@@ -579,6 +621,10 @@ func main() {
 	for _, k := range []string{"Repositories", "Tags", "Referrers"} {
 		run.Floor("listings/"+k, 200, int(run.Counter("listings/"+k)))
 	}
+	for i, nl := 0, run.N(3, 24); i < nl; i++ {
+		longListing(run, i)
+	}
+	run.FloorCounter("long_listings", 3)
 	run.FloorCounter("early_stops", 100)
 	run.FloorCounter("faults_surfaced_as_error", 50)
 	run.Finish()
